@@ -57,6 +57,102 @@ def tophatOpenModel (dt : DT) (f : Img Int) (sup : List (List Int × Int)) : Img
 def tophatCloseModel (dt : DT) (f : Img Int) (sup : List (List Int × Int)) : Img Int :=
   submModel dt (closeModel dt f sup) f
 
+/-! ### `open` / `close` as buffer programs (`morph.py:393-472` with `out=`)
+
+`open(f, Bc, out)` runs `eroded = erode(f, Bc, out=out)` — the kernel stores `*rpos = value` into **every** cell
+of the caller's buffer in scan order, whatever it held —, then `tmp = eroded.copy()`, then
+`dilate(tmp, Bc, out=eroded)`: `std::fill(out, min)` followed by the scatter loop, which reads `tmp` and
+raises cells of `eroded`. `close` is symmetric. A buffer is an `Array Int` of the size of the image
+(`_get_output` checks dtype, shape and C-contiguity). -/
+
+/-- `_morph.erode(A, Bc, out)`: every cell of `out` is overwritten, in scan order -/
+def erodeInto (dt : DT) (A : Img Int) (sup : List (List Int × Int)) (out : Array Int) : Array Int :=
+  (List.range A.size).foldl (fun o i => o.setIfInBounds i (erodeAt dt A sup (unravelI A.shape i))) out
+
+/-- `std::fill(rpos, rpos + res.size(), v)` -/
+def fillBuf (out : Array Int) (v : Int) : Array Int :=
+  (List.range out.size).foldl (fun o i => o.setIfInBounds i v) out
+
+/-- `_morph.dilate(A, Bc, out)` with `A` and `out` distinct buffers: fill, then scatter reading `A` -/
+def dilateInto (dt : DT) (A : Img Int) (sup : List (List Int × Int)) (out : Array Int) : Array Int :=
+  (allPos A.shape).foldl (fun o p =>
+      let v := A.getD p dt.lo
+      if v = dt.lo then o else sup.foldl (dilateScatter dt A.shape v p) o)
+    (fillBuf out dt.lo)
+
+/-- `open(f, Bc, out=out)` as the source runs it: erode into `out`, copy, dilate the copy into `out` -/
+def openBuf (dt : DT) (A : Img Int) (sup : List (List Int × Int)) (out : Array Int) : Array Int :=
+  let eroded := erodeInto dt A sup out
+  let tmp : Img Int := { shape := A.shape, data := eroded }    -- `eroded.copy()`
+  dilateInto dt tmp sup eroded
+
+/-- `close(f, Bc, out=out)`: dilate into `out`, copy, erode the copy into `out` -/
+def closeBuf (dt : DT) (A : Img Int) (sup : List (List Int × Int)) (out : Array Int) : Array Int :=
+  let dilated := dilateInto dt A sup out
+  let tmp : Img Int := { shape := A.shape, data := dilated }   -- `dilated.copy()`
+  erodeInto dt tmp sup dilated
+
+/-- `dilate(buf, Bc, out=buf)` — what `open` would run **without** the copy: input and output are the same
+    memory, so the fill destroys the input and the loop reads the cells it is writing -/
+def dilateInPlace (dt : DT) (shape : List Nat) (sup : List (List Int × Int)) (buf : Array Int) : Array Int :=
+  (allPos shape).foldl (fun st p =>
+      let v := st.getD (ravelI shape p) dt.lo
+      if v = dt.lo then st else sup.foldl (dilateScatter dt shape v p) st)
+    (fillBuf buf dt.lo)
+
+/-- `erode(buf, Bc, out=buf)` — `close` without the copy: each stored minimum is read back by later pixels -/
+def erodeInPlace (dt : DT) (shape : List Nat) (sup : List (List Int × Int)) (buf : Array Int) : Array Int :=
+  (List.range (shapeSize shape)).foldl (fun st i =>
+      st.setIfInBounds i (erodeAt dt { shape := shape, data := st } sup (unravelI shape i))) buf
+
+/-- `open` without the copy (the aliasing the comment in the source warns about) -/
+def openAliased (dt : DT) (A : Img Int) (sup : List (List Int × Int)) (out : Array Int) : Array Int :=
+  dilateInPlace dt A.shape sup (erodeInto dt A sup out)
+
+/-- `close` without the copy -/
+def closeAliased (dt : DT) (A : Img Int) (sup : List (List Int × Int)) (out : Array Int) : Array Int :=
+  erodeInPlace dt A.shape sup (dilateInto dt A sup out)
+
+/-! ### `subm(a, b, out=…)` as a buffer program (`morph.py`: `out = _get_output(a, out)`; `if out is not a: out[:] = a`;
+`_morph.subm(out, b)` — the C++ loop works **in place** on its first argument, one cell at a time) -/
+
+/-- `_morph.subm(out, b)` with `out` and `b` distinct memory: cell `i` becomes `subm(out[i], b[i])` -/
+def submInPlace (dt : DT) (out b : Array Int) : Array Int :=
+  (List.range out.size).foldl (fun o i => o.setIfInBounds i (submElem dt (o.getD i 0) (b.getD i 0))) out
+
+/-- `_morph.subm(out, out)`: both iterators walk the same memory -/
+def submInPlaceSelf (dt : DT) (out : Array Int) : Array Int :=
+  (List.range out.size).foldl (fun o i => o.setIfInBounds i (submElem dt (o.getD i 0) (o.getD i 0))) out
+
+/-- `out[:] = a` -/
+def copyInto (out a : Array Int) : Array Int :=
+  (List.range out.size).foldl (fun o i => o.setIfInBounds i (a.getD i 0)) out
+
+/-- what `out=` names: nothing / a separate buffer with arbitrary contents, the first operand, the second operand -/
+inductive OutArg where
+  | fresh (buf : Array Int)
+  | aliasA
+  | aliasB
+
+/-- `morph.subm(a, b, out)` as it is since fix e250a86: when `out` shares memory with `b` the subtrahend is copied
+    **before** `out` is overwritten with `a` -/
+def submBuf (dt : DT) (a b : Array Int) : OutArg → Array Int
+  | .aliasA => submInPlace dt a b
+  | .fresh buf => submInPlace dt (copyInto buf a) b
+  | .aliasB => submInPlace dt (copyInto b a) b          -- `b = b.copy()` first: the loop still reads the old `b`
+
+/-- the wrapper before the fix: with `out=b`, `out[:] = a` destroyed `b` and the loop subtracted the buffer from itself -/
+def submBufUnfixed (dt : DT) (a b : Array Int) : OutArg → Array Int
+  | .aliasB => submInPlaceSelf dt (copyInto b a)
+  | o => submBuf dt a b o
+
+/-- the seeded numpy "fast path" for unsigned operands, `np.subtract(a, b, out=out); out[out > a] = 0`, run with
+    `out=a`: the underflow mask is computed after `a` has been overwritten (so it is empty) -/
+def submMaskAfter (dt : DT) (a b : Array Int) : Array Int :=
+  let diff := (List.range a.size).foldl (fun o i => o.setIfInBounds i (dt.wrap (o.getD i 0 - b.getD i 0))) a
+  -- `a` *is* `diff` now: `diff > a` is false everywhere
+  (List.range diff.size).foldl (fun o i => if o.getD i 0 > diff.getD i 0 then o.setIfInBounds i 0 else o) diff
+
 /-- largest height of a member of the element (0 for an empty one) -/
 def maxHeight (dt : DT) (sup : List (List Int × Int)) : Int :=
   (sup.filter (isMember dt)).foldl (fun m kh => max m kh.2) 0
@@ -76,7 +172,15 @@ def handle (a : Args) : String :=
     let ys := a.ints "b"
     let model := List.zipWith (submElem dt) xs ys
     let spec := List.zipWith (fun x y => dt.clamp (x - y)) xs ys
-    s!"model={showInts model} spec={showInts spec}"
+    let prog :=
+      if a.has "outmode" then
+        let arg := match a.str "outmode" with
+          | "alias-a" => OutArg.aliasA
+          | "alias-b" => OutArg.aliasB
+          | _ => OutArg.fresh (a.ints "buf").toArray
+        s!" prog={showInts (submBuf dt xs.toArray ys.toArray arg).toList}"
+      else ""
+    s!"model={showInts model} spec={showInts spec}{prog}"
   | "ops" =>
     let shape := a.nats "shape"
     let f : Img Int := { shape := shape, data := (a.ints "f").toArray }
@@ -86,7 +190,10 @@ def handle (a : Args) : String :=
     let sup := support bshape bc dt.isBool
     let n := a.nat "n"
     let sh (x : Img Int) := showInts x.data.toList
-    s!"erode={sh (erodeImg dt f sup)} dilate={sh (dilateImg dt f sup)} open={sh (openModel dt f sup)} close={sh (closeModel dt f sup)} cerode={sh (cerodeModel dt f g sup)} cdilate={sh (cdilateModel dt f g sup n)} thopen={sh (tophatOpenModel dt f sup)} thclose={sh (tophatCloseModel dt f sup)} clearf={if clearOf dt sup f then 1 else 0} clearg={if clearOf dt sup g then 1 else 0} symstar={if C14.symStarB (sup.filter (isMember dt)) then 1 else 0}"
+    s!"erode={sh (erodeImg dt f sup)} dilate={sh (dilateImg dt f sup)} open={sh (openModel dt f sup)} close={sh (closeModel dt f sup)} cerode={sh (cerodeModel dt f g sup)} cdilate={sh (cdilateModel dt f g sup n)} thopen={sh (tophatOpenModel dt f sup)} thclose={sh (tophatCloseModel dt f sup)} clearf={if clearOf dt sup f then 1 else 0} clearg={if clearOf dt sup g then 1 else 0} symstar={if C14.symStarB (sup.filter (isMember dt)) then 1 else 0}" ++
+      (if a.has "buf1" then
+        s!" openbuf={showInts (openBuf dt f sup (a.ints "buf1").toArray).toList} closebuf={showInts (closeBuf dt f sup (a.ints "buf2").toArray).toList} openalias={showInts (openAliased dt f sup (a.ints "buf1").toArray).toList} closealias={showInts (closeAliased dt f sup (a.ints "buf2").toArray).toList}"
+       else "")
   | k => s!"error=unknown-kind-{k}"
 
 end Mahotas.C02
